@@ -168,12 +168,13 @@ class SeamNativeFS(NativeOSFS, Seam):
         self.seam_init()
 
     def listdir(self, sys_path):
-        return permute(os.listdir(sys_path), self.order)
+        # through the library's own NativeOSFS.listdir, so that it is exercised too
+        return permute(NativeOSFS.listdir(self, sys_path), self.order)
 
     def open(self, path, mode="r", *a, **kw):
         if self.counting:
             self._tick("open", f"{os.path.basename(path)} {mode}")
-        f = io.open(path, mode, *a, **kw)
+        f = NativeOSFS.open(self, path, mode, *a, **kw)
         if self.counting and ("w" in mode or "a" in mode or "+" in mode):
             return CountingWriter(self, f, os.path.basename(path), lambda: io.open(path, "wb").close())
         return f
